@@ -50,6 +50,9 @@ def find_class(name: str, default_module=None):
             continue
         if hasattr(mod, name):
             return getattr(mod, name)
+    if name.endswith("Ids"):
+        # a view type of the sidecars (HeaderExtensionsIds: a HeaderExtensions object whose fields hold extension ids)
+        return find_class(name[:-3], default_module)
     raise KeyError(name)
 
 
